@@ -930,6 +930,12 @@ def scan_file_times(files: list[Path]) -> tuple[np.ndarray, dict[Path, int]]:
             num_frames[fname] = len(new_times)
             units = nc.variables["ocean_time"].units
             calendar = getattr(nc.variables["ocean_time"], "calendar", "standard")
+            dated = ["standard", "gregorian", "proleptic_gregorian", "julian"]
+            if calendar.lower() not in dated + ["noleap", "365_day"]:
+                # A calendar with dates numpy does not have (360_day, all_leap)
+                # or an unknown one: the time elapsed since the reference is kept
+                logger.warning("  Calendar %s of %s read as standard", calendar, fname)
+                calendar = "standard"
             new_frames = num2date(new_times, units, calendar)
             frames.extend(new_frames)
     all_frames = np.array([np.datetime64(tf) for tf in frames])
